@@ -167,6 +167,39 @@ def case_grid(case):
             "obs": {"returned": returned, "raised": raised, "lowpass_tested": ntested, "padded": [nxe, nye]}}
 
 
+def case_closed_anchor(case):
+    """an ABSOLUTE anchor for registration on every grid size: with every mode kept (request above the padded size) the
+    analytic mode for constant profiles is the closed-form half-space solution on exactly this grid (vf/oracles/halfspace.py),
+    at an upper level too - the differential oracles above compare the library with itself and cannot see a spectrum that is
+    consistently mis-indexed"""
+    from vf.oracles import halfspace
+
+    S0 = sl.solver()
+    nx, ny, halo, fp = case["nx"], case["ny"], case["halo"], case["footprint"]
+    dx, dy = 10.0, 15.0
+    dom = (nx * dx, ny * dy)
+    pv = (2.3, -1.1, 1.7, 0.6, 0.9)
+    z = np.array([0.05, 0.4, 1.1, 2.3, 3.9, 5.0])
+    prof = tuple(np.full(len(z), x) for x in pv)
+    lv = [0, 2, 5]
+    q = core.case_rng(0, [nx, ny, "closed-anchor"]).random((ny, nx))
+    mp = (1 * dx, 2 * dy) if fp else (0.0, 0.0)
+    try:
+        _, c, f = S0(q, z, prof, dom, lv, modes=(256, 256), halo=halo, precision="double", footprint=fp, meas_pt=mp, analytic=True, srf_bg_conc=1.5)
+    except Exception as e:  # noqa - raising is allowed
+        return {"v": [], "nt": False, "n": 1, "obs": {"raised": type(e).__name__}}
+    nxe, nye, _, _ = sl.padded_size(nx, ny, dom, halo)
+    cw, fw = halfspace.solve(q, dom, z[lv] - z[0], pv, (nxe, nye), halo, meas_pt=mp, bg=1.5, footprint=fp)
+    v = []
+    for nm, a, b in (("conc", c, cw), ("flux", f, fw)):
+        a = np.asarray(a, dtype=float)
+        e = sl.relerr(a, b, max(np.abs(b).max(), 1.5 if nm == "conc" else 0.0, 1e-300)) if a.shape == b.shape else float("inf")
+        if not e <= 1e-10:
+            v.append({"sub": "closed-anchor", "sig": "closed-anchor/%s/%s" % ("odd" if (nxe % 2 or nye % 2) else "even", nm),
+                      "msg": "nx=%d ny=%d halo=%r %s, every mode kept (padded %dx%d), analytic mode: %s differs from the closed form on this grid by %.2e of its maximum (shape %s)" % (nx, ny, halo, "footprint" if fp else "dispersion", nxe, nye, nm, e, a.shape)})
+    return {"v": v, "nt": True, "n": 1}
+
+
 def case_interface(case):
     """the same obligation through the configuration-driven single run: for every grid size (even or odd) and mode request the
     run either raises or returns fields of the configured shape on x = i*dx, y = j*dy whose flux at the lowest level, with
@@ -223,6 +256,8 @@ def run(ctx):
     callforms.run_solver_forms(ctx)
     res = ctx.run_cases(case_grid, cases(ctx.tier), sub="grid", chunksize=1)
     res += ctx.run_cases(case_grid, fine_cases(ctx.tier), sub="fine cells under a deep column (analytic mode)", chunksize=1)
+    hi_ = 8 if ctx.tier == "quick" else 10
+    ctx.run_cases(case_closed_anchor, [{"nx": a_, "ny": b_, "halo": h_, "footprint": f_} for a_ in range(3, hi_ + 1) for b_ in range(3, hi_ + 1) for h_ in (0.0, None, 13.0) for f_ in (True, False)], sub="closed-form anchor on every grid size")
     ctx.run_cases(case_interface, [{"nx": a_, "ny": b_, "halo": h_} for a_ in (4, 5, 7, 8) for b_ in (4, 5, 6) for h_ in (0.0, None, 13.0)], sub="through the configuration-driven run")
     ret = int(sum(r.get("obs", {}).get("returned", 0) for r in res))
     rs = {}
